@@ -115,6 +115,14 @@ func replayCompat(args []string) int {
 					gw := compatGenomeOtherWiring(2, c.B, scale)
 					got["linear(a, b on another wiring: other end points, disabled / recurrent genes, other weights)"] = ga.VerifCompatLinear(gw, opts)
 					got["fast(b on another wiring, a)"] = gw.VerifCompatFast(ga, opts)
+					// both operands on the other wiring: matching genes meet every combination of enabled / disabled,
+					// forward / recurrent on the two sides (the patterns are shifted against each other)
+					gv := compatGenomeOtherWiring(1, c.A, scale)
+					for i, x := range gv.Genes {
+						x.IsEnabled = i%3 != 0
+					}
+					got["linear(a and b on other wirings)"] = gv.VerifCompatLinear(gw, opts)
+					got["fast(b and a on other wirings)"] = gw.VerifCompatFast(gv, opts)
 					// the distance is a function of the genes and the three coefficients only: every other option
 					// (speciation threshold, population size, mutation rates ...) is outside the formula
 					for _, thr := range []float64{0.25, 1, 3, 1e9} {
@@ -129,7 +137,7 @@ func replayCompat(args []string) int {
 						got["fast(a,b)"+tag] = ga.VerifCompatFast(gb, full)
 					}
 				})
-				rep.Evaluations += 26
+				rep.Evaluations += 28
 				bad := ""
 				if p != "" {
 					bad = "panic: " + p
